@@ -1609,6 +1609,11 @@ class C14(Check):
             for n in (8, 16, 24, 32, 64, 128, 256, 512, 1024, 1448, 1456, 1464, 2048, 4096, 8192):
                 for d in (0, -1):
                     cases.append(S(self.l4_frames(B((i * 7 + 3) & 255 for i in range(n + d)))[fr_i]))
+            # --- 3: ... and payloads that make the CHECKSUMMED region (pseudo header + header + data) such a multiple
+            reg = [20, 32, 8, 48, 60, 48][fr_i]
+            for k in range(6, 14):
+                for d in (0, -1, 1):
+                    cases.append(S(self.l4_frames(B((i * 11 + 1) & 255 for i in range((1 << k) - reg + d)))[fr_i]))
             # --- 3: the largest datagrams the length fields can express, and the 15-bit boundary
             over = [28, 40, 28, 48, 60, 48][fr_i]
             for total in (32767, 32768, 65535):
@@ -1687,11 +1692,12 @@ class C14(Check):
             for body in (b"", b"\0\1\0\2", bytes(4) + inner, bytes(4) + inner + b"abcdefgh"):
                 cases.append(MP([E, I(1), {"k": "icmp", "type": t, "code": 0, "csum": 0}, B(body)]))
             cases.append(MP([E, I(t), B(inner)]))
-            cases.append(MP([E, I(6), T([{"t": t, "v": "0102"}] if t not in (0, 1, 2, 3, 4, 5, 8) else [{"t": 1}, {"t": t, **({"v": 7} if t in (2, 3) else {"v": [[1, 2]]} if t == 5 else {"v": [1, 2]} if t == 8 else {})}]),
-                             B(b"ab")]))
+            # (kind 0 ends the list and is not reported by the parser, kind 30 is MPTCP, which the model declines: model comparison only)
+            cases.append((MP if t in (0, 30) else S)([E, I(6), T([{"t": t, "v": "0102"}] if t not in (0, 1, 2, 3, 4, 5, 8) else [{"t": 1}, {"t": t, **({"v": 7} if t in (2, 3) else {"v": [[1, 2]]} if t == 5 else {"v": [1, 2]} if t == 8 else {})}]),
+                                                      B(b"ab")]))
             if t not in (1, 2, 3, 5):          # (the typed options are built from their own fields elsewhere)
-                cases.append(MP([E6, I6, {"k": "icmpv6", "type": 135, "code": 0}, {"k": "nd_ns", "target": "fe80" + "00" * 14, "opts": [{"t": t, "raw": "010203040506"}, {"t": t, "raw": "00" * 14}]}, {"k": "none"}]))
-            cases.append(MP([E, I(17), dict(U, srcport=68, dstport=67), dh([{"c": t, "raw": "01"}, {"c": 15 if t == 12 else 12, "v": "6869"}]), {"k": "none"}]))
+                cases.append(S([E6, I6, {"k": "icmpv6", "type": 135, "code": 0}, {"k": "nd_ns", "target": "fe80" + "00" * 14, "opts": [{"t": t, "raw": "010203040506"}, {"t": t, "raw": "00" * 14}]}, {"k": "none"}]))
+            cases.append((MP if t in (0, 255) else S)([E, I(17), dict(U, srcport=68, dstport=67), dh([{"c": t, "raw": "01"}, {"c": 15 if t == 12 else 12, "v": "6869"}]), {"k": "none"}]))
         # IGMP: the checksum is verified by the parser, so it is computed here
         def igmp_msg(b): return b[:2] + struct.pack("!H", rfc1071(b[:2] + b"\0\0" + b[4:])) + b[4:]
         rep = bytes([0x22, 0, 0, 0, 0, 0, 0, 2]) + bytes([1, 0, 0, 1]) + bytes([224, 0, 0, 22, 10, 0, 0, 1]) + bytes([4, 1, 0, 0]) + bytes([224, 0, 0, 9]) + b"abcd"
@@ -1910,6 +1916,14 @@ class C14(Check):
         for _ in range(120):
             cases.append(self.g_other(rng))
         cases += self.corpus_hardening()
+        # --- checksum(): buffer lengths that are exact multiples of every power-of-two block size, and one / two off (HARDENING 3)
+        for k in range(3, 17):
+            for d in (-2, -1, 0, 1, 2):
+                n = (1 << k) + d
+                cases.append({"kind": "cksum", "data": bytes((i * 29 + 7) & 255 for i in range(n)).hex(), "start": 0, "skip": None})
+                cases.append({"kind": "cksum", "data": bytes((i * 31 + 1) & 255 for i in range(n)).hex(), "start": 0, "skip": rng.choice([0, 5, n // 2 - 1, n // 4])})
+        for n in (1500, 3000, 6144, 10240, 12288):
+            cases.append({"kind": "cksum", "data": bytes((i * 29 + 7) & 255 for i in range(n)).hex(), "start": 0, "skip": None})
         # --- checksum(): buffers at the 64 KiB / 128 KiB marks (every word 0xffff: the largest sums the model's bound allows)
         for n in (65534, 65535, 65536, 65537, 131071, 131072):
             for fill in (b"\xff", b"\x80", b"\x01"):
